@@ -46,10 +46,12 @@ def _machine(cfg: HistoryProperty, res: ShardResult, max_rules: int):
             super().__init__()
             self.h: Optional[History] = None
 
-        @initialize(w=st_world(cfg.profile))
-        def init(self, w):
+        @initialize(w=st_world(cfg.profile), pre=st.lists(st.tuples(st.integers(0, 9), st.integers(0, 9)), max_size=2) if cfg.instr_bias.get("inject") else st.just([]))
+        def init(self, w, pre):
             self.h = History(w, cfg.monitors(), findings=findings, raise_for=[cfg.prop])
             res.stats["evaluations"] += 1
+            for o, d in pre:  # demand injected before the first step (simulation time = start time)
+                self._do(["inject", o, d])
 
         def _do(self, op):
             try:
@@ -83,6 +85,12 @@ def _machine(cfg: HistoryProperty, res: ShardResult, max_rules: int):
             @rule(kind=i_args["kind"], vclass=i_args["vclass"], vsel=i_args["vsel"], tclass=i_args["tclass"], tsel=i_args["tsel"], csel=i_args["csel"])
             def probe(self, kind, vclass, vsel, tclass, tsel, csel):
                 self._do(["probe", kind, vclass, vsel, tclass, tsel, csel])
+
+        if cfg.instr_bias.get("inject"):
+
+            @rule(o=st.integers(0, 9), d=st.integers(0, 9))
+            def inject(self, o, d):
+                self._do(["inject", o, d])
 
         if cfg.probes and cfg.instr_bias.get("batches"):
 
